@@ -109,6 +109,9 @@ class ManagedBSE:
                 acts.append(('drop', t, i))
                 if s.cfg['take']: acts.append(('take', t, i))
                 break      # objects held by one task are interchangeable up to renaming: act on the first only
+            # a task may act as a second controller (two resize() calls racing): cfg task_ctl = {task: (('resize', n), ...)}
+            if 'fut' not in L and L.get('tctl', 0) < 1:
+                for act in (s.cfg.get('task_ctl') or {}).get(t, ()): acts.append(tuple(act) + (t,))
         C = st.threads['C'].local
         if C['nctl'] < s.cfg['max_ctl'] and not st.threads['C'].stack:
             for a in s.cfg['ctl']:
@@ -227,7 +230,8 @@ class ManagedBSE:
                 s.set_op(st, t, a, 'taking', oid=oid)
                 s.M.push_mir(st, th, W.F('::take'), [obj])
             return [st]
-        C = st.threads['C'].local; C['nctl'] += 1
+        if t == 'C': st.threads['C'].local['nctl'] += 1
+        else: th.local['tctl'] = th.local.get('tctl', 0) + 1
         if kind == 'status':
             s.set_op(st, t, a, 'simple'); s.M.push_mir(st, th, W.F('::status'), [Ref(proot)])
         elif kind == 'is_closed':
@@ -498,7 +502,7 @@ class ManagedBSE:
                     return out
         if 'C11' in O and not s.any_lock_held(st): out.extend(s.check_status(st))
         if out: return out
-        if 'C02' in O and s.cfg['probe'] and not busy: out.extend(s.probe(st))
+        if ('C02' in O or 'C09' in O) and s.cfg['probe'] and not busy: out.extend(s.probe(st))      # C09: retain / take must not cost capacity either
         if 'C07' in O and st.gget('resizes') and not st.gget('closed_ret') and not busy:
             out.extend(s.check_resized(st))
         if 'C09' in O and 'C07' not in O and s.cfg['probe'] and st.gget('resizes') and not st.gget('closed_ret') and not busy \
@@ -538,6 +542,10 @@ class ManagedBSE:
         n = st.gget('resizes')[-1]
         sc = st.clone(); r = s.W.status(sc, 'S', sc.gget('pool'))
         S = r[0][1][1]
+        if s.cfg.get('cap_from_status') and isinstance(S.f[0], I):
+            # two resize() calls overlapped: which one was "last" is decided by the order in which they took the slots lock;
+            # the pool's own max_size is the reference and the capacity must match it
+            n = S.f[0].v
         if s.M.feasible(sc, z(binop('Ne', S.f[0], I(n)))):
             out.append(s.vio('C07', f'status().max_size is {S.f[0]!r} after resize({n})', st)); return out
         out_n = sum(len(st.threads[t].local['objs']) for t in s.tasks)
@@ -628,8 +636,10 @@ class ManagedBSE:
         if st.gget('resizes'):
             # after resizes the exact capacity is C07's subject (with its known findings, all of which leave capacity ABOVE the
             # last value); what C02 still demands is that no capacity is LOST: the pool can hand out at least the last value again
-            return [v for v in s.capacity_probe(st, I(st.gget('resizes')[-1]), 'C02') if v.get('lost')]
-        return s.capacity_probe(st, st.gget('max_size'), 'C02')
+            O = s.cfg['oracles']
+            return [v for v in s.capacity_probe(st, I(st.gget('resizes')[-1]), 'C02' if 'C02' in O else O[0]) if v.get('lost')]
+        O = s.cfg['oracles']
+        return s.capacity_probe(st, st.gget('max_size'), 'C02' if 'C02' in O else O[0])
 
     def capacity_probe(s, st, expected, prop):
         s.nprobes += 1
@@ -657,33 +667,43 @@ class ManagedBSE:
                     cur = step(cur, lambda x: ('drop', t, 0) if x.threads[t].local['objs'] else None)
             out = []
             bound = s.cfg['max_size_bound'] + (max(s.cfg['resize_targets']) if s.cfg['ctl'] else 0) + 1
-            final = []
-            for i in range(bound + 1):
-                nxt = []
-                for x in cur:
-                    if x.gget('deadpool_panics'):
-                        out.append(s.vio(prop, 'panic inside deadpool while draining the pool: ' + x.gget('deadpool_panics')[-1], st)); continue
-                    for y in s.apply(x, ('get', 'P', zi)):
-                        res = (y.gget('last') or {}).get('res')
-                        if res and res[:2] == ('ok', 'object'): nxt.append(y)
-                        else: final.append((y, res))
-                cur = nxt
-                if not cur: break
-            def steps(y): return [['probe']] + [list(map(str, e)) for e in y.log[n0:] if e[0] in ('act', 'env')]
-            from .replay import split_actions
-            for y in cur:
-                out.append(dict(s.vio(prop, 'the capacity probe obtained more objects concurrently than the bound allows', st), probe_log=steps(y)))
-            for y, res in final:
-                n = len(y.threads['P'].local['objs'])
-                if res is None or res[0] != 'err' or res[1] != 'Timeout:Wait':
-                    out.append(dict(s.vio(prop, f'capacity probe ended with {res} instead of Timeout(Wait)', st), probe_log=steps(y))); continue
-                if M.feasible(y, z(binop('Ne', I(n), expected))):
-                    d = s.vio(prop, f'after the history the pool hands out {n} objects concurrently, not the configured capacity (capacity lost or gained)', y)
-                    d['probe_log'] = steps(y); d['got'] = n
-                    # every known C07 role leaves capacity ABOVE the configured value; capacity below it is always a new violation
-                    if not M.feasible(y, z(binop('Gt', I(n), expected))):
-                        d['lost'] = True; d['what'] = d['what'].replace('(capacity lost or gained)', '(capacity LOST)')
-                    out.append(d)
+            for rnd in range(int(s.cfg.get('probe_rounds', 1))):
+              # (a second round - everything returned once more, then drained again - finds losses that only show when the pool
+              #  has been filled up to max_size and emptied again, e.g. after a size counter was left one too high)
+              if rnd > 0:
+                  for _ in range(bound + 1):
+                      if not any(x.threads['P'].local['objs'] for x in cur): break
+                      cur = step(cur, lambda x: ('drop', 'P', 0) if x.threads['P'].local['objs'] else None)
+              final = []
+              for i in range(bound + 1):
+                  nxt = []
+                  for x in cur:
+                      if x.gget('deadpool_panics'):
+                          out.append(s.vio(prop, 'panic inside deadpool while draining the pool: ' + x.gget('deadpool_panics')[-1], st)); continue
+                      for y in s.apply(x, ('get', 'P', zi)):
+                          res = (y.gget('last') or {}).get('res')
+                          if res and res[:2] == ('ok', 'object'): nxt.append(y)
+                          else: final.append((y, res))
+                  cur = nxt
+                  if not cur: break
+              def steps(y): return [['probe']] + [list(map(str, e)) for e in y.log[n0:] if e[0] in ('act', 'env')]
+              from .replay import split_actions
+              for y in cur:
+                  out.append(dict(s.vio(prop, 'the capacity probe obtained more objects concurrently than the bound allows', st), probe_log=steps(y)))
+              for y, res in final:
+                  n = len(y.threads['P'].local['objs'])
+                  if res is None or res[0] != 'err' or res[1] != 'Timeout:Wait':
+                      out.append(dict(s.vio(prop, f'capacity probe ended with {res} instead of Timeout(Wait)', st), probe_log=steps(y))); continue
+                  if M.feasible(y, z(binop('Ne', I(n), expected))):
+                      d = s.vio(prop, f'after the history the pool hands out {n} objects concurrently, not the configured capacity (capacity lost or gained)', y)
+                      d['probe_log'] = steps(y); d['got'] = n
+                      # every known C07 role leaves capacity ABOVE the configured value; capacity below it is always a new violation
+                      if not M.feasible(y, z(binop('Gt', I(n), expected))):
+                          d['lost'] = True; d['what'] = d['what'].replace('(capacity lost or gained)', '(capacity LOST)')
+                      if rnd > 0: d['what'] += ' [after filling and emptying the pool once more]'
+                      out.append(d)
+              if out: return out[:1]
+              cur = [y for y, res in final]
             return out[:1]
         finally:
             s.W.env.cfg.clear(); s.W.env.cfg.update(saved); s.cfg['timeout_variants'] = saved_tv; s.tasks = saved_tasks; M.task_mode = saved_mode
